@@ -1,21 +1,37 @@
 """Shared helpers of the C06 / C07 checks (droplet tracking).
 
 A *history* is a plain dict (JSON-able, used verbatim as replay input):
-    {"dim": d, "grid": None | [[lo, hi, ncells, periodic], ...],
-     "times": [t0, t1, ...], "frames": [[[pos..., radius], ...], ...]}
+    {"dim": d, "grid": None | [[lo, hi, ncells, periodic], ...] | {"kind": "cylinder" | "spherical" | "polar", ...},
+     "times": [t0, t1, ...], "frames": [[[pos..., radius], ...], ...],
+     "var": {...}}          (optional; every key has a default, see VAR_DEFAULT)
+"var" says HOW the time course and the call are put together from these values (audit against
+notes/input_dimensions.md): droplet class (and a unique tag carried in a field that neither `overlaps` nor the
+distance looks at), provenance of the objects (copy / deepcopy / pickle / file / append / shared objects / result of a
+previous tracking), numeric type of the time codes and of `max_dist`, sign of a zero time code, `progress`, whether
+`method` / `max_dist` are passed or left at their defaults, and whether one time course and one grid object are reused
+for all calls.
 A *config* is ("overlap", None) or ("distance", max_dist) with max_dist a float or None (= default inf).
 
 Droplets are identified by (frame index, index in the frame).  The implementation copies droplets on
-append, so droplets of the result are matched back by their data (time stamp, position, radius); every
-generator makes this triple unique inside a history.
+append, so droplets of the result are matched back by their data (time stamp, class, bytes of the data record); every
+generator makes this triple unique inside a history.  WITHOUT the time stamp (needed to judge C07 on results whose
+stamps are wrong) the identification may be ambiguous -- a droplet that does not change between two frames --; the
+ambiguous case is handled explicitly: every identification that is consistent with the data is enumerated and a
+statement counts as violated only if it is violated under every one of them (`ident_alternatives`).
 """
 from __future__ import annotations
 
+import contextlib
 import copy
 import functools
+import io
 import itertools
 import math
+import numbers
+import os
+import pickle
 import random
+import tempfile
 from fractions import Fraction
 
 import numpy as np
@@ -24,6 +40,42 @@ import vlib
 
 INF = float("inf")
 
+VAR_DEFAULT = {
+    "cls": "spherical",        # spherical | diffuse | perturbed | mixed (class by (frame + index) % 3)
+    "tag": False,              # diffuse / perturbed droplets carry a unique interface_width
+    "prov": "fresh",           # see PROVENANCES
+    "time_type": "float",      # float | int | np.float64 | np.int64 | np.float32 | mixed   (0d: accepted in replays only)
+    "neg_zero": False,         # a time code 0 is written -0.0 (float kinds only)
+    "md_type": "float",        # float | int | np.float64 | np.float32 | 0d   (type of a finite max_dist)
+    "md_inf": "omit",          # omit | inf | np.inf                        (how the default cut-off is passed)
+    "progress": None,          # None (omitted) | False | True
+    "method_default": False,   # the overlap method is selected by NOT passing `method`
+    "reuse": False,            # one time course + one grid object for all configs; first config run twice
+    "overlap_max_dist": False,  # method="overlap" is called with max_dist=1.0 (documented as unused: a warning is logged)
+}
+PROVENANCES = ["fresh", "droplet_copy", "droplet_deepcopy", "droplet_pickle", "emulsion_copy", "emulsion_pickle",
+               "etc_pickle", "etc_deepcopy", "etc_copyctor", "etc_append", "etc_append_nocopy", "etc_slice",
+               "etc_file", "shared_objects", "from_tracks"]
+# inputs that are reported in the evidence notes but not judged (see notes/audit_task.md); each entry:
+# (name, what happens, why it is not judged)
+SUSPECTED = [
+    ("max_dist=None passed explicitly",
+     "TypeError ('>' not supported between 'float' and 'NoneType') as soon as a frame with droplets follows a frame "
+     "with droplets (method='distance')",
+     "the docstring documents `max_dist` as 'a maximal distance'; None is not a distance, the default is np.inf "
+     "(decision of the lead pending)"),
+]
+
+
+def var_of(hist):
+    v = dict(VAR_DEFAULT)
+    v.update(hist.get("var") or {})
+    return v
+
+
+def is_cart(hist):
+    return hist["grid"] is None or isinstance(hist["grid"], list)
+
 
 # ---------------------------------------------------------------------------------------------
 # running the implementation
@@ -31,32 +83,216 @@ INF = float("inf")
 def make_grid(spec):
     if spec is None:
         return None
+    if isinstance(spec, dict):
+        import pde
+        if spec["kind"] == "cylinder":
+            return pde.CylindricalSymGrid(spec["radius"], tuple(spec["z"]), tuple(spec["shape"]),
+                                          periodic_z=bool(spec["periodic_z"]))
+        r = spec["radius"]
+        r = tuple(r) if isinstance(r, (list, tuple)) else r
+        if spec["kind"] == "spherical":
+            return pde.SphericalSymGrid(r, spec["shape"])
+        if spec["kind"] == "polar":
+            return pde.PolarSymGrid(r, spec["shape"])
+        raise KeyError(spec["kind"])
     from pde import CartesianGrid
     return CartesianGrid([(a[0], a[1]) for a in spec], [a[2] for a in spec], periodic=[bool(a[3]) for a in spec])
 
 
+def droplet_class(var, dim, f, j):
+    c = var["cls"]
+    if c == "mixed":
+        c = ("spherical", "diffuse", "perturbed")[(f + j) % 3]
+    if c == "perturbed" and dim == 1:
+        c = "diffuse"
+    return c
+
+
+def make_droplet(d, cname, tag):
+    from droplets import DiffuseDroplet, SphericalDroplet
+    pos, r = np.array(d[:-1], dtype=float), float(d[-1])
+    if cname == "spherical":
+        return SphericalDroplet(pos, r)
+    if cname == "diffuse":
+        return DiffuseDroplet(pos, r, interface_width=tag)
+    from droplets.droplets import PerturbedDroplet2D, PerturbedDroplet3D
+    if len(pos) == 2:
+        return PerturbedDroplet2D(pos, r, interface_width=tag, amplitudes=[0.0625, -0.03125])
+    return PerturbedDroplet3D(pos, r, interface_width=tag, amplitudes=[0.0625, 0.0, -0.03125])
+
+
 def make_droplets(hist):
-    from droplets import SphericalDroplet
-    return [[SphericalDroplet(np.array(d[:-1], dtype=float), float(d[-1])) for d in fr] for fr in hist["frames"]]
+    """reference droplets, freshly constructed from the values of the history"""
+    var = var_of(hist)
+    out, uid = [], 0
+    for f, fr in enumerate(hist["frames"]):
+        row = []
+        for j, d in enumerate(fr):
+            uid += 1
+            row.append(make_droplet(d, droplet_class(var, hist["dim"], f, j), uid * 2.0 ** -12 if var["tag"] else None))
+        out.append(row)
+    return out
+
+
+def _integral(x):
+    return float(x) == int(x)
+
+
+def make_times(hist):
+    """time codes in the numeric type the history asks for (values unchanged)"""
+    var = var_of(hist)
+    tt = var["time_type"]
+    out = []
+    for i, t in enumerate(hist["times"]):
+        t = float(t)
+        kind = tt
+        if kind == "mixed":
+            kind = ("int", "float", "np.float64")[i % 3]
+        if kind in ("int", "np.int64") and not _integral(t):
+            kind = "float"
+        if kind == "np.int64" and abs(t) >= 2.0 ** 62:
+            kind = "int"
+        if kind == "int" and abs(t) >= 2.0 ** 62 and var["prov"] == "etc_file":
+            kind = "float"          # HDF5 attributes cannot hold Python integers beyond 64 bits (not tracking's business)
+        if kind == "np.float32" and float(np.float32(t)) != t:
+            kind = "np.float64"
+        if t == 0 and var["neg_zero"] and kind in ("float", "np.float64", "np.float32", "0d"):
+            t = -0.0
+        out.append({"float": float, "int": int, "np.float64": np.float64, "np.int64": np.int64,
+                    "np.float32": np.float32, "0d": lambda x: np.array(float(x))}[kind](t))
+    return out
+
+
+def make_max_dist_kwargs(hist, max_dist):
+    """-> (kwargs, label of the kind actually used)"""
+    var = var_of(hist)
+    if max_dist is None or math.isinf(max_dist):
+        how = var["md_inf"] if max_dist is None else "inf"
+        if how == "omit":
+            return {}, "omitted"
+        return {"max_dist": float("inf") if how == "inf" else np.inf}, how
+    mt = var["md_type"]
+    if mt == "int" and not _integral(max_dist):
+        mt = "float"
+    if mt == "np.float32" and float(np.float32(max_dist)) != max_dist:
+        mt = "np.float64"
+    val = {"float": float, "int": int, "np.float64": np.float64, "np.float32": np.float32,
+           "0d": lambda x: np.array(float(x))}[mt](max_dist)
+    return {"max_dist": val}, mt
+
+
+def _dkey(d):
+    """identity of a droplet's content: class + bytes of its data record"""
+    return (type(d).__name__, d.data.tobytes())
+
+
+def _scratch_dir():
+    d = vlib.BUILD / "cases" / "tracking_tmp"
+    d.mkdir(parents=True, exist_ok=True)
+    return d
+
+
+def apply_provenance(hist, drops, times):
+    """time course whose objects have the provenance the history asks for"""
+    from droplets import DropletTrackList, Emulsion, EmulsionTimeCourse
+    prov = var_of(hist)["prov"]
+    if prov == "droplet_copy":
+        drops = [[d.copy() for d in fr] for fr in drops]
+    elif prov == "droplet_deepcopy":
+        drops = [[copy.deepcopy(d) for d in fr] for fr in drops]
+    elif prov == "droplet_pickle":      # what worker processes return
+        drops = [[pickle.loads(pickle.dumps(d)) for d in fr] for fr in drops]
+    ems = [Emulsion(fr) for fr in drops]
+    if prov == "emulsion_copy":
+        ems = [e.copy() for e in ems]
+    elif prov == "emulsion_pickle":
+        ems = [pickle.loads(pickle.dumps(e)) for e in ems]
+    if prov in ("etc_append", "etc_append_nocopy"):
+        etc = EmulsionTimeCourse()
+        for e, t in zip(ems, times):
+            etc.append(e, time=t, copy=(prov == "etc_append"))
+    else:
+        etc = EmulsionTimeCourse(ems, list(times))
+    if prov == "etc_pickle":
+        etc = pickle.loads(pickle.dumps(etc))
+    elif prov == "etc_deepcopy":
+        etc = copy.deepcopy(etc)
+    elif prov == "etc_copyctor":
+        etc = EmulsionTimeCourse(etc)
+    elif prov == "etc_slice":
+        etc = etc[0:len(etc.times)]
+    elif prov == "etc_file":            # element of a file-read collection (time codes come back as numpy scalars)
+        fd, path = tempfile.mkstemp(suffix=".h5", dir=_scratch_dir())
+        os.close(fd)
+        try:
+            import warnings
+            with warnings.catch_warnings():
+                warnings.simplefilter("ignore")
+                etc.to_file(path)
+                etc = EmulsionTimeCourse.from_file(path, progress=False)
+        finally:
+            os.remove(path)
+    elif prov == "shared_objects":      # one droplet object is a member of several frames
+        pool = {}
+        for e in etc.emulsions:
+            for j in range(len(e)):
+                k = _dkey(e[j])
+                if k in pool:
+                    list.__setitem__(e, j, pool[k])
+                else:
+                    pool[k] = e[j]
+    elif prov == "from_tracks":         # result of a previous operation: the droplet objects of an earlier tracking
+        with contextlib.redirect_stderr(io.StringIO()):
+            trs = DropletTrackList.from_emulsion_time_course(etc)
+        have = {}
+        for tr in trs:
+            for t, d in zip(tr.times, tr.droplets):
+                have.setdefault((float(t),) + _dkey(d), d)
+        for t, e in zip(etc.times, etc.emulsions):
+            for j in range(len(e)):
+                d = have.get((float(t),) + _dkey(e[j]))
+                if d is not None:
+                    list.__setitem__(e, j, d)
+    return etc
+
+
+def build_input(hist):
+    """-> dict(grid, etc, refs, problems): the objects handed to the implementation and fresh reference droplets"""
+    refs = make_droplets(hist)
+    times = make_times(hist)
+    etc = apply_provenance(hist, make_droplets(hist), times)
+    problems = []
+    # the provenance must not change the values (otherwise another property's subject is broken: report, do not hide)
+    ok = len(etc.times) == len(times) and len(etc.emulsions) == len(refs)
+    if ok:
+        for f in range(len(refs)):
+            if not (float(etc.times[f]) == float(hist["times"][f])) or len(etc.emulsions[f]) != len(refs[f]):
+                ok = False
+                break
+            if any(_dkey(a) != _dkey(b) or a.data.dtype != b.data.dtype for a, b in zip(etc.emulsions[f], refs[f])):
+                ok = False
+                break
+    if not ok:
+        problems.append(f"time course built with provenance {var_of(hist)['prov']!r} does not hold the given times / droplets")
+    return {"grid": make_grid(hist["grid"]), "etc": etc, "refs": refs, "problems": problems}
 
 
 def make_time_course(hist, drops=None):
-    from droplets import Emulsion, EmulsionTimeCourse
-    drops = drops if drops is not None else make_droplets(hist)
-    return EmulsionTimeCourse([Emulsion(fr) for fr in drops], list(hist["times"]))
+    return build_input(hist)["etc"]
 
 
-def _key(t, pos, radius):
-    return (float(t), tuple(float(x) for x in pos), float(radius))
+def _key(t, d):
+    return (float(t),) + _dkey(d)
 
 
-def hist_keys(hist):
+def hist_keys(hist, refs=None):
+    refs = refs if refs is not None else make_droplets(hist)
     keys = {}
-    for f, fr in enumerate(hist["frames"]):
+    for f, fr in enumerate(refs):
         for j, d in enumerate(fr):
-            k = _key(hist["times"][f], d[:-1], d[-1])
+            k = _key(hist["times"][f], d)
             if k in keys:
-                raise RuntimeError(f"generator produced indistinguishable droplets: {k}")
+                raise RuntimeError(f"generator produced indistinguishable droplets: frame {f}, {hist['frames'][f][j]}")
             keys[k] = (f, j)
     return keys
 
@@ -67,44 +303,123 @@ def _snapshot(etc):
             [[(type(d).__name__, d.data.tobytes(), d.data.dtype) for d in e] for e in etc.emulsions])
 
 
-def run_impl(hist, config, deep=True):
+def _grid_snapshot(grid):
+    return None if grid is None else (type(grid).__name__, repr(grid.state))
+
+
+def _real_time(t):
+    """a time stamp must be a real, non-NaN number (Python or numpy scalar, 0-d array)"""
+    if isinstance(t, bool):
+        return False
+    if isinstance(t, np.ndarray):
+        if t.ndim != 0 or t.dtype.kind not in "fiu":
+            return False
+        t = t[()]
+    if not isinstance(t, (numbers.Real, np.floating, np.integer)):
+        return False
+    return not math.isnan(float(t))
+
+
+MAX_ALTERNATIVES = 720
+
+
+def ident_alternatives(keys, struct):
+    """Identification of the droplets of a result WITHOUT their time stamps.
+    keys: (time, class, bytes) -> (f, j) of the history;  struct: tracks as lists of (stamp, class, bytes).
+    Returns (list of alternative track lists [[stamp, f, j], ...], note).  Every identification that is consistent with
+    the data (a bijection between result droplets and history droplets of equal content) is returned; [] when there is
+    none (droplets lost / duplicated / altered: C06's statement) or there are more than MAX_ALTERNATIVES."""
+    groups = {}
+    for (t_, *k), fj in keys.items():
+        groups.setdefault(tuple(k), []).append(fj)
+    places = {}
+    for a, tr in enumerate(struct):
+        if not tr:
+            return [], "impossible"
+        for b, (t, *k) in enumerate(tr):
+            places.setdefault(tuple(k), []).append((a, b))
+    if set(places) != set(groups) or any(len(places[k]) != len(groups[k]) for k in groups):
+        return [], "impossible"
+    amb = sorted(k for k in groups if len(groups[k]) > 1)
+    total = 1
+    for k in amb:
+        total *= math.factorial(len(groups[k]))
+        if total > MAX_ALTERNATIVES:
+            return [], "too-many"
+    base = [[[float(t), None, None] for (t, *k) in tr] for tr in struct]
+    for k in groups:
+        if len(groups[k]) == 1:
+            (a, b), (f, j) = places[k][0], groups[k][0]
+            base[a][b][1:] = [f, j]
+    alts = []
+    for choice in itertools.product(*[itertools.permutations(sorted(groups[k])) for k in amb]):
+        alt = [[list(e) for e in tr] for tr in base]
+        for k, perm in zip(amb, choice):
+            for (a, b), (f, j) in zip(places[k], perm):
+                alt[a][b][1:] = [f, j]
+        alts.append(alt)
+    return alts, ("unique" if not amb else "alternatives")
+
+
+def run_impl(hist, config, deep=True, prebuilt=None):
     """Run from_emulsion_time_course.  Returns dict:
        raised : None | exception class name
        tracks : list of tracks, each a list of [time, f, j]   (None if raised / not canonicalisable)
+       ident_alts : identifications without the time stamps (see ident_alternatives)
        problems : list of strings (property text items that can be judged while canonicalising:
                   droplet altered / unknown, input modified, wrong return type)"""
-    from droplets import DropletTrackList
+    from droplets import DropletTrack, DropletTrackList
     method, max_dist = config
-    grid = make_grid(hist["grid"])
-    originals = make_droplets(hist)
-    etc = make_time_course(hist, originals)
+    var = var_of(hist)
+    inp = prebuilt if prebuilt is not None else build_input(hist)
+    grid, etc, originals = inp["grid"], inp["etc"], inp["refs"]
     before = _snapshot(etc)
+    before_grid = _grid_snapshot(grid)
     before_copy = copy.deepcopy(etc) if deep else None
-    kwargs = {} if max_dist is None else {"max_dist": max_dist}
-    out = {"raised": None, "tracks": None, "problems": [], "msg": ""}
+    kwargs, md_kind = ({}, "n/a") if method == "overlap" else make_max_dist_kwargs(hist, max_dist)
+    if not (method == "overlap" and var["method_default"]):
+        kwargs["method"] = method
+    if method == "overlap" and var["overlap_max_dist"]:
+        kwargs["max_dist"] = 1.0
+    if var["progress"] is not None:
+        kwargs["progress"] = bool(var["progress"])
+    out = {"raised": None, "tracks": None, "problems": list(inp["problems"]), "msg": "", "md_kind": md_kind,
+           "ident_alts": [], "ident_note": "n/a", "tracks_partial": []}
     try:
-        res = DropletTrackList.from_emulsion_time_course(etc, method=method, grid=grid, **kwargs)
+        with contextlib.redirect_stderr(io.StringIO()):     # progress bars
+            res = DropletTrackList.from_emulsion_time_course(etc, grid=grid, **kwargs)
     except Exception as e:  # noqa
         out["raised"] = type(e).__name__
         out["msg"] = str(e)[:200]
         res = None
-    if _snapshot(etc) != before or (deep and not (etc == before_copy)):
-        out["problems"].append("input time course modified")
+    try:
+        if _snapshot(etc) != before or (deep and not (etc == before_copy)):
+            out["problems"].append("input time course modified")
+        if _grid_snapshot(grid) != before_grid:
+            out["problems"].append("grid object modified")
+    except Exception as e:  # noqa
+        out["problems"].append(f"input cannot be inspected after the call ({type(e).__name__}: {str(e)[:100]})")
     if res is None:
         return out
-    keys = hist_keys(hist)
-    # identification WITHOUT the time stamp (unique (position, radius) only): lets the identity statements of C07 be
-    # judged on results whose time stamps are wrong (which is C06's business and reported there)
-    keys_nt, amb = {}, set()
-    for (t_, p_, r_), fj in keys.items():
-        if (p_, r_) in keys_nt:
-            amb.add((p_, r_))
-        keys_nt[(p_, r_)] = fj
-    tracks = []
-    tracks_ident = []
-    ident_ok = True
+    try:
+        _canonicalise(hist, out, res, etc, originals, deep, DropletTrack, DropletTrackList)
+    except Exception as e:  # noqa -- a result of the wrong kind is a failure of the property, not of the check
+        out["problems"].append(f"result is not a list of droplet tracks that can be read ({type(e).__name__}: {str(e)[:120]})")
+        out["tracks"] = None
+    return out
+
+
+def _canonicalise(hist, out, res, etc, originals, deep, DropletTrack, DropletTrackList):
+    if not isinstance(res, DropletTrackList):
+        out["problems"].append(f"result is a {type(res).__name__}, not a DropletTrackList")
+    keys = hist_keys(hist, originals)
+    tracks, struct = [], []
     ok = True
     for tr in res:
+        if not isinstance(tr, DropletTrack):
+            out["problems"].append(f"element of the result is a {type(tr).__name__}, not a DropletTrack")
+            ok = False
+            continue
         if len(tr.times) != len(tr.droplets):
             out["problems"].append("track with different numbers of times and droplets")
             ok = False
@@ -112,18 +427,20 @@ def run_impl(hist, config, deep=True):
         if len(tr.times) == 0:
             out["problems"].append("empty track returned")
             ok = False
+            struct.append([])
             continue
-        ent = []
-        ent_nt = []
+        ent, st = [], []
         for t, d in zip(tr.times, tr.droplets):
-            k = _key(t, d.position, d.radius)
-            if k[1:] in keys_nt and k[1:] not in amb:
-                ent_nt.append([float(t), *keys_nt[k[1:]]])
-            else:
-                ident_ok = False
+            if not _real_time(t):
+                out["problems"].append(f"time stamp {t!r} is not a real number")
+                ok = False
+                st.append((float("nan"),) + _dkey(d))
+                continue
+            k = _key(t, d)
+            st.append(k)
             if k not in keys:
                 out["problems"].append(f"droplet in a track is not a droplet of its frame (altered data or wrong time stamp): "
-                                       f"time={t!r} position={d.position.tolist()} radius={float(d.radius)!r}")
+                                       f"time={t!r} {d!r}")
                 ok = False
                 continue
             f, j = keys[k]
@@ -131,15 +448,20 @@ def run_impl(hist, config, deep=True):
             if type(d) is not type(orig) or d.data.tobytes() != orig.data.tobytes() or d.data.dtype != orig.data.dtype \
                     or (deep and not (d == orig)):
                 out["problems"].append(f"droplet ({f},{j}) altered")
-            if any(d is o for fr in originals for o in fr) or any(d is o for e in etc.emulsions for o in e):
+            if any(d is o for e in etc.emulsions for o in e):
                 out["problems"].append(f"track shares droplet object ({f},{j}) with the input (no copy)")
             ent.append([float(t), f, j])
         tracks.append(ent)
-        tracks_ident.append(ent_nt)
+        struct.append(st)
+    ids = [id(d) for tr in res if isinstance(tr, DropletTrack) for d in tr.droplets]
+    if len(set(ids)) != len(ids):
+        out["problems"].append("one droplet object is an entry of two tracks / two entries of a track")
     out["tracks"] = tracks if ok else None
-    out["tracks_ident"] = tracks_ident if ident_ok and all(tracks_ident) else None
     out["tracks_partial"] = tracks
-    return out
+    if ok:
+        out["ident_alts"], out["ident_note"] = [tracks], "stamps-right"
+    else:
+        out["ident_alts"], out["ident_note"] = ident_alternatives(keys, struct)
 
 
 # ---------------------------------------------------------------------------------------------
@@ -161,6 +483,10 @@ def needed_pairs(hist, full=False):
     return pairs
 
 
+class TableError(Exception):
+    """the overlap predicate / the distance of the implementation gave something that is not a bool / a finite float"""
+
+
 def impl_tables(hist, full=False):
     """ov[(a,b)] = a.overlaps(b, grid=grid);  D[(a,b)] = cdist entry with the metric the code uses."""
     from scipy.spatial import distance
@@ -170,8 +496,17 @@ def impl_tables(hist, full=False):
     ov, D = {}, {}
     for a, b in needed_pairs(hist, full):
         da, db = drops[a[0]][a[1]], drops[b[0]][b[1]]
-        ov[(a, b)] = bool(da.overlaps(db, grid=grid))
-        D[(a, b)] = float(distance.cdist([da.position], [db.position], metric=metric)[0, 0])
+        try:
+            o = da.overlaps(db, grid=grid)
+            d = distance.cdist([da.position], [db.position], metric=metric)[0, 0]
+        except Exception as e:  # noqa
+            raise TableError(f"overlaps / distance of droplets {a} and {b} raised {type(e).__name__}: {str(e)[:120]}")
+        if not isinstance(o, (bool, np.bool_)):
+            raise TableError(f"overlaps({a},{b}) returned {o!r} ({type(o).__name__}), not a bool")
+        if isinstance(d, complex) or not isinstance(d, (float, np.floating)) or not math.isfinite(float(d)):
+            raise TableError(f"distance of {a} and {b} is {d!r}, not a finite float")
+        ov[(a, b)] = bool(o)
+        D[(a, b)] = float(d)
     return ov, D
 
 
@@ -199,8 +534,12 @@ def exact_overlap(hist, a, b):
 
 
 def metric_failures(hist, ov, D):
-    """Property text (C07): distances and overlaps are measured with the (periodic) grid metric."""
+    """Property text (C07): distances and overlaps are measured with the (periodic) grid metric.
+    Judged on Cartesian grids (and without grid); on cylindrical / spherical / polar grids the metric is whatever
+    py-pde's grid.distance computes (the periodic z-axis of a cylinder is not wrapped by py-pde 0.58: dependency)."""
     fails = []
+    if not is_cart(hist):
+        return fails
     for (a, b), d in D.items():
         d2 = exact_dist2(hist, a, b)
         # d is the correctly rounded sqrt of a sum of exactly representable squares (coarse dyadic inputs):
@@ -284,16 +623,39 @@ def greedy_reference(rows, cols, W):
         cols.remove(b)
 
 
-def oracle_C07(hist, config, res, ov, D):
-    """C07 is quantified over time courses whose droplets do not overlap within a frame (checked by the
-    caller for the statements that need it)."""
-    fails = []
+def ident_candidates(res):
+    """the identifications of the result's droplets under which the identity statements are judged: the one given by the
+    (right) time stamps, else every identification consistent with the droplets' data"""
     if res["raised"]:
-        return fails  # C06's business
+        return []
+    if res["tracks"] is not None:
+        return [res["tracks"]]
+    return res.get("ident_alts") or []
+
+
+def oracle_C07(hist, config, res, ov, D):
+    """C07 is quantified over time courses whose droplets do not overlap within a frame (checked inside for the
+    statements that need it).  A result that raised, or whose droplets cannot be identified at all (lost, duplicated,
+    altered droplets), is C06's business.  When the time stamps are wrong and a droplet's data occur in several frames,
+    a statement counts as violated only if it is violated under EVERY consistent identification."""
+    cands = ident_candidates(res)
+    if not cands:
+        return []
+    best = None
+    for tracks in cands:
+        fs = _judge_C07(hist, config, tracks, ov, D)
+        if not fs:
+            return []
+        if best is None or len(fs) < len(best):
+            best = fs
+    if len(cands) > 1:
+        best = [f + f"  [under each of the {len(cands)} identifications of the unstamped droplets]" for f in best[:3]]
+    return best
+
+
+def _judge_C07(hist, config, tracks, ov, D):
+    fails = []
     method, max_dist = config
-    tracks = res["tracks"] if res["tracks"] is not None else res.get("tracks_ident")
-    if tracks is None:
-        return fails  # droplets cannot be identified at all: C06's business
     sizes = [len(fr) for fr in hist["frames"]]
     links = links_of(tracks)
     starts = {(tr[0][1], tr[0][2]) for tr in tracks}
@@ -355,10 +717,11 @@ def oracle_C07(hist, config, res, ov, D):
 # ---------------------------------------------------------------------------------------------
 def lattice_class(name):
     """Small exhaustive classes: droplet kinds (position, radius) on a lattice; radii chosen so that
-    touching (d == r1 + r2, not an overlap), overlapping and distance ties all occur."""
-    if name == "1d-3x2":       # 3 positions x 2 radii, period 3 when periodic
-        kinds = [[x, r] for x in (0.5, 1.5, 2.5) for r in (0.5, 0.75)]
-        return {"dim": 1, "kinds": kinds, "grid": [[0.0, 3.0, 3, True]], "cutoffs": [None, 1.0, 0.5]}
+    touching (d == r1 + r2, not an overlap), overlapping and distance ties all occur.  Origins differ between the
+    classes (0, centred box, entirely negative coordinates); the periodic axis is the first, the last or the middle one."""
+    if name == "1d-3x2":       # 3 positions x 2 radii, period 3 when periodic; box centred on the origin
+        kinds = [[x, r] for x in (-1.0, 0.0, 1.0) for r in (0.5, 0.75)]
+        return {"dim": 1, "kinds": kinds, "grid": [[-1.5, 1.5, 3, True]], "cutoffs": [None, 1.0, 0.5]}
     if name == "1d-4x2":
         kinds = [[x, r] for x in (0.5, 1.5, 2.5, 3.5) for r in (0.5, 0.75)]
         return {"dim": 1, "kinds": kinds, "grid": [[0.0, 4.0, 4, True]], "cutoffs": [None, 1.0, 1.5]}
@@ -366,9 +729,17 @@ def lattice_class(name):
         # at distance 1: 0.375+0.375 apart, 0.375+0.625 touching (not an overlap), 0.625+0.625 overlapping
         kinds = [[x, r] for x in (0.5, 1.5) for r in (0.375, 0.625)]
         return {"dim": 1, "kinds": kinds, "grid": [[0.0, 2.0, 2, True]], "cutoffs": [None, 1.0, 0.5]}
-    if name == "2d-2x2":       # 2 x 2 lattice, one radius, periodic in x only (period 3)
+    if name == "2d-2x2":       # 2 x 2 lattice, one radius, periodic in x only (period 3): periodic axis first
         kinds = [[x, y, 0.625] for x in (0.5, 2.5) for y in (0.5, 1.5)]
         return {"dim": 2, "kinds": kinds, "grid": [[0.0, 3.0, 3, True], [0.0, 2.0, 2, False]],
+                "cutoffs": [None, 1.0, 1.25]}
+    if name == "2d-2x2T":      # the same transposed: periodic axis LAST, coordinates entirely negative, cut-off 0
+        kinds = [[y, x, 0.625] for x in (-2.5, -0.5) for y in (-5.5, -4.5)]
+        return {"dim": 2, "kinds": kinds, "grid": [[-6.0, -4.0, 2, False], [-3.0, 0.0, 3, True]],
+                "cutoffs": [None, 1.0, 0.0]}
+    if name == "3d-mid":       # periodic axis in the MIDDLE, a 1-cell axis first, shifted positive origin
+        kinds = [[7.5, y, z, 0.625] for y in (10.5, 12.5) for z in (0.5, 1.5)]
+        return {"dim": 3, "kinds": kinds, "grid": [[7.0, 8.0, 1, False], [10.0, 13.0, 3, True], [0.0, 2.0, 2, False]],
                 "cutoffs": [None, 1.0, 1.25]}
     if name == "2d-2x2x2":
         kinds = [[x, y, r] for x in (0.5, 2.5) for y in (0.5, 1.5) for r in (0.5, 0.75)]
@@ -391,27 +762,106 @@ def lattice_histories(nk, maxframes, maxdrop):
         yield from itertools.product(frs, repeat=nf)
 
 
-def lattice_history(cls, kind_hist, with_grid, times=None):
-    return {"dim": cls["dim"], "grid": cls["grid"] if with_grid else None,
-            "times": list(times) if times is not None else [float(i) for i in range(len(kind_hist))],
-            "frames": [[list(cls["kinds"][k]) for k in fr] for fr in kind_hist]}
+# time codes of the exhaustive classes: 0 as first, interior and last time code, with steps != 1 before and after it
+TIME_PATTERNS = {
+    "0,1,2": lambda n: [float(i) for i in range(n)],
+    "zero-interior": lambda n: [-2.5, 0.0, 0.5, 3.0][:n],
+    "zero-last": lambda n: [-2.5 * (n - 1 - i) if i < n - 1 else 0.0 for i in range(n)] if n != 2 else [-0.25, 0.0],
+    "zero-first-step2.5": lambda n: [2.5 * i for i in range(n)],
+    "no-zero": lambda n: [10.0 + 0.25 * i * i for i in range(n)],
+    "zero-interior-int": lambda n: [-3.0, 0.0, 2.0, 5.0][:n],
+}
+
+CHEAP_PROVENANCES = ["droplet_copy", "droplet_deepcopy", "droplet_pickle", "emulsion_copy", "emulsion_pickle",
+                     "etc_pickle", "etc_deepcopy", "etc_copyctor", "etc_append", "etc_append_nocopy", "etc_slice",
+                     "shared_objects", "from_tracks"]
 
 
-def random_history(rng: random.Random, max_frames=8, max_drops=5, allow_nonmonotone=False):
-    """Random history on a coarse dyadic lattice: appear / disappear / split / merge / drift / ties / empty frames."""
+def random_var(rng: random.Random, dim, times, heavy=True, uniform_class=False):
+    """how the time course and the call are assembled; every choice from rng"""
+    var = {}
+    cls = rng.choice(["spherical", "spherical", "diffuse", "diffuse", "perturbed", "mixed"])
+    if uniform_class and cls == "mixed":
+        cls = "diffuse"
+    var["cls"] = cls
+    var["tag"] = cls != "spherical" and rng.random() < 0.8
+    u = rng.random()
+    if u < 0.35:
+        var["prov"] = "fresh"
+    elif heavy and u < 0.45 and cls != "mixed":
+        var["prov"] = "etc_file"
+    else:
+        var["prov"] = rng.choice(CHEAP_PROVENANCES)
+    integral = all(_integral(t) for t in times)
+    # (0-d arrays are not offered as time codes: a time code is documented as a float and nothing promises that
+    # unhashable stand-ins work; `max_dist` is only ever compared with an array, there a 0-d array is a valid number)
+    kinds = ["float", "float", "np.float64", "mixed"] + (["int", "int", "np.int64"] if integral else [])
+    if all(float(np.float32(t)) == t for t in times):
+        kinds.append("np.float32")
+    var["time_type"] = rng.choice(kinds)
+    var["neg_zero"] = rng.random() < 0.3
+    var["md_type"] = rng.choice(["float", "float", "int", "np.float64", "np.float32", "0d"])
+    var["md_inf"] = rng.choice(["omit", "omit", "inf", "np.inf"])
+    var["progress"] = rng.choice([None, None, False, True])
+    var["method_default"] = rng.random() < 0.3
+    var["reuse"] = rng.random() < 0.3
+    var["overlap_max_dist"] = rng.random() < 0.15
+    return var
+
+
+def lattice_history(cls, kind_hist, with_grid, times=None, var=None):
+    h = {"dim": cls["dim"], "grid": cls["grid"] if with_grid else None,
+         "times": list(times) if times is not None else [float(i) for i in range(len(kind_hist))],
+         "frames": [[list(cls["kinds"][k]) for k in fr] for fr in kind_hist]}
+    if var:
+        h["var"] = var
+    return h
+
+
+def _scaled(x, k):
+    return math.ldexp(float(x), k)
+
+
+def random_history(rng: random.Random, max_frames=8, max_drops=5, allow_nonmonotone=False, plain=False):
+    """Random history on a coarse dyadic lattice: appear / disappear / split / merge / drift / ties / empty frames.
+    Geometry: per-axis length, origin (0 / centred / shifted positive / entirely negative), cell count (1, 2, L, 2L) and
+    periodicity; droplets hugging faces and corners; radius exactly 0; the whole picture scaled by 2^-30 / 2^30.
+    plain=True: the distribution of the first build round (origin 0, equal axes), kept as a sub-stream."""
     dim = rng.choice([1, 1, 2, 2, 3])
-    L = rng.choice([4.0, 6.0, 8.0])
+    if plain or rng.random() < 0.3:
+        L0 = rng.choice([4.0, 6.0, 8.0])
+        Ls = [L0] * dim
+    else:
+        Ls = [rng.choice([4.0, 6.0, 8.0]) for _ in range(dim)]
+    if plain or rng.random() < 0.3:
+        los = [0.0] * dim
+    else:
+        los = [rng.choice([0.0, -Ls[ax] / 2, 3.0, -Ls[ax] - 2.0]) for ax in range(dim)]
+    ncs = [int(Ls[ax]) if plain else rng.choice([1, 2, int(Ls[ax]), 2 * int(Ls[ax])]) for ax in range(dim)]
     periodic = [rng.random() < 0.6 for _ in range(dim)]
-    grid = [[0.0, L, int(L), periodic[ax]] for ax in range(dim)] if rng.random() < 0.6 else None
+    has_grid = rng.random() < (0.6 if plain else 0.7)
+    grid = [[los[ax], los[ax] + Ls[ax], ncs[ax], periodic[ax]] for ax in range(dim)] if has_grid else None
     nf = rng.randint(0, max_frames)
     step = rng.choice([0.25, 0.5, 1.0])
     # dense: frequent overlaps inside a frame; sparse: small radii, mostly non-overlapping frames (the class C07 and the
     # second half of C06 quantify over)
     radii = [0.25, 0.5, 0.75, 1.0, 1.25] if rng.random() < 0.4 else [0.125, 0.25, 0.25, 0.375]
+    hug = (not plain) and rng.random() < 0.3           # new droplets sit on / next to the faces and corners of the box
+    zero_r = (not plain) and rng.random() < 0.2        # some droplets have radius exactly 0
+    unique_r = plain or rng.random() < 0.8             # radii perturbed so that (position, radius) is unique
     frames = []
     cur = []
     uid = 0
     p_empty = rng.choice([0.0, 0.1, 0.3])
+
+    def fresh_pos():
+        out = []
+        for ax in range(dim):
+            n = int(Ls[ax] / step)
+            k = rng.choice([0, 1, n - 1, n]) if hug else rng.randrange(0, n + 1)
+            out.append(los[ax] + k * step)
+        return out
+
     for f in range(nf):
         mode = rng.random()
         if mode < p_empty:
@@ -424,7 +874,8 @@ def random_history(rng: random.Random, max_frames=8, max_drops=5, allow_nonmonot
                     continue  # disappears
                 pos = [(x + rng.choice([-1, 0, 0, 1]) * step) for x in d[:-1]]
                 if grid is not None:
-                    pos = [x % L if periodic[ax] else min(max(x, 0.0), L) for ax, x in enumerate(pos)]
+                    pos = [los[ax] + (x - los[ax]) % Ls[ax] if periodic[ax] else min(max(x, los[ax]), los[ax] + Ls[ax])
+                           for ax, x in enumerate(pos)]
                 r = d[-1] if rng.random() < 0.7 else rng.choice(radii)
                 new.append(pos + [r])
                 if u > 0.88:   # split: a second droplet next to it
@@ -432,54 +883,212 @@ def random_history(rng: random.Random, max_frames=8, max_drops=5, allow_nonmonot
                     pos2[rng.randrange(dim)] += rng.choice([-1, 1]) * rng.choice([0.5, 1.0, 1.5])
                     new.append(pos2 + [rng.choice(radii)])
             while len(new) < max_drops and rng.random() < (0.5 if new else 0.8):
-                new.append([rng.randrange(0, int(L / step) + 1) * step for _ in range(dim)] + [rng.choice(radii)])
+                new.append(fresh_pos() + [0.0 if zero_r and rng.random() < 0.3 else rng.choice(radii)])
             if len(new) >= 2 and rng.random() < 0.1:   # merge: drop one of a close pair
                 new.pop(rng.randrange(len(new)))
             rng.shuffle(new)
             new = new[:max_drops]
-        # unique radius perturbation (exact in binary64) so that result droplets can be matched back
+        # unique radius perturbation (exact in binary64) so that result droplets can be matched back; droplets of
+        # radius exactly 0 and the droplets of `not unique_r` histories keep their radius (then no two droplets of a
+        # frame may have the same data; the same data in DIFFERENT frames is the ambiguous case of ident_alternatives)
         fr = []
         for d in new:
             uid += 1
-            base = round(d[-1] * 8) / 8
-            fr.append([float(x) for x in d[:-1]] + [base + uid * 2.0 ** -20])
+            if d[-1] == 0.0:
+                r = 0.0
+            else:
+                base = round(d[-1] * 8) / 8
+                r = base + uid * 2.0 ** -20 if unique_r else max(base, 0.125)
+            cand = [float(x) for x in d[:-1]] + [r]
+            if cand not in fr:
+                fr.append(cand)
         frames.append(fr)
         cur = [list(d) for d in fr]
     if allow_nonmonotone and nf > 0:
         times = [float(rng.randrange(0, 3)) for _ in range(nf)]
-    else:
+    elif plain:
         t, times = rng.choice([0.0, -1.5, 10.0]), []
         for f in range(nf):
             times.append(t)
             t += rng.choice([0.25, 1.0, 1.0, 2.5])
-    return {"dim": dim, "grid": grid, "times": times, "frames": frames}
+    else:
+        times = random_times(rng, nf)
+    h = {"dim": dim, "grid": grid, "times": times, "frames": frames}
+    if not plain:
+        k = rng.choice([0, 0, 0, -30, 30])
+        if k:
+            h = scale_history(h, k)
+        h["var"] = random_var(rng, dim, times)
+        h["var"]["scale_pow2"] = k
+    return h
 
 
-def drift_history(rng: random.Random):
+def scale_history(h, k):
+    """the same picture in other units: every length multiplied by 2^k (exact)"""
+    out = dict(h)
+    out["frames"] = [[[_scaled(x, k) for x in d] for d in fr] for fr in h["frames"]]
+    if isinstance(h["grid"], list):
+        out["grid"] = [[_scaled(a[0], k), _scaled(a[1], k), a[2], a[3]] for a in h["grid"]]
+    return out
+
+
+def random_times(rng: random.Random, nf):
+    """strictly increasing time codes: integral or quarter steps, steps of one ulp, huge steps; with probability 1/2 a
+    chosen frame (first / interior / last) gets the time code 0 exactly"""
+    if nf == 0:
+        return []
+    style = rng.choice(["quarters", "quarters", "integral", "ulp", "huge"])
+    if style == "ulp":
+        t0 = rng.choice([1.0, -3.0, 1024.0])
+        ts = [t0]
+        for _ in range(nf - 1):
+            ts.append(math.nextafter(ts[-1], INF))
+            if rng.random() < 0.3:
+                ts[-1] = math.nextafter(ts[-1], INF)
+        return ts
+    if style == "huge":
+        t0 = rng.choice([-2.0 ** 80, 0.0, 2.0 ** 60])
+        ts = [t0]
+        for _ in range(nf - 1):
+            ts.append(ts[-1] + rng.choice([2.0 ** 30, 2.0 ** 40, 3 * 2.0 ** 35]))
+    else:
+        steps = [1.0, 2.0, 3.0, 1.0] if style == "integral" else [0.25, 1.0, 1.0, 2.5, 0.75]
+        t, ts = rng.choice([0.0, -2.0, 10.0, -7.0]), []
+        for _ in range(nf):
+            ts.append(t)
+            t += rng.choice(steps)
+    if rng.random() < 0.5:
+        k = rng.choice([0, nf - 1, rng.randrange(nf)])
+        ts = [t - ts[k] for t in ts]           # exact: all values are small multiples of 1/4 (or of 2^30)
+    return ts
+
+
+def drift_history(rng: random.Random, plain=False):
     """k well separated droplets drifting rigidly across a periodic boundary by less than their radius per frame;
-    with the grid supplied each droplet must keep its identity (C07, last sentence)."""
-    dim = rng.choice([1, 2])
+    with the grid supplied each droplet must keep its identity (C07, last sentence).  The drift axis (periodic) is the
+    first, the last or the middle axis; the other axes have any periodicity, another length and another origin."""
+    dim = rng.choice([1, 2]) if plain else rng.choice([1, 2, 2, 3, 3])
     k = rng.randint(1, 3)
     L = 12.0
     r = 1.0
     step = rng.choice([0.25, 0.5, 0.75])
     direction = rng.choice([-1, 1])
     nf = rng.randint(3, 8)
-    base = [[(L / k) * i + 0.5] + ([rng.randrange(0, 4) * 1.0] if dim == 2 else []) for i in range(k)]
-    grid = [[0.0, L, 12, True]] + ([[0.0, 4.0, 4, False]] if dim == 2 else [])
+    axd = 0 if plain else rng.randrange(dim)                # the axis along which the droplets drift
+    lo_d = 0.0 if plain else rng.choice([0.0, -6.0, 3.0, -20.0])
+    grid, others = [], []
+    for ax in range(dim):
+        if ax == axd:
+            grid.append([lo_d, lo_d + L, 12 if plain else rng.choice([12, 1, 2, 24]), True])
+        else:
+            lo = 0.0 if plain else rng.choice([0.0, -2.0, 5.0, -9.0])
+            grid.append([lo, lo + 4.0, 4 if plain else rng.choice([4, 1, 2]), (not plain) and rng.random() < 0.5])
+    base = []
+    for i in range(k):
+        pos = []
+        for ax in range(dim):
+            if ax == axd:
+                pos.append(lo_d + (L / k) * i + 0.5)
+            else:
+                pos.append(grid[ax][0] + rng.randrange(0, 4) * 1.0)
+        base.append(pos)
     frames = []
-    uid = 0
     for f in range(nf):
         fr = []
         order = list(range(k))
         rng.shuffle(order)
         for i in order:
-            uid += 1
             pos = list(base[i])
-            pos[0] = (pos[0] + direction * step * f) % L
+            pos[axd] = lo_d + (pos[axd] - lo_d + direction * step * f) % L
             fr.append(pos + [r + (i + 1) * 2.0 ** -10])     # radius identifies the physical droplet
         frames.append(fr)
-    return {"dim": dim, "grid": grid, "times": [0.5 * f for f in range(nf)], "frames": frames}
+    h = {"dim": dim, "grid": grid, "times": [0.5 * f for f in range(nf)], "frames": frames}
+    if not plain:
+        z = rng.randrange(nf + 1)                         # time code 0 at any frame (or none), steps of 0.5
+        if z < nf:
+            h["times"] = [0.5 * (f - z) for f in range(nf)]
+        h["var"] = random_var(rng, dim, h["times"])
+    return h
+
+
+def long_history(rng: random.Random, nf):
+    """long time course (many frames, <= 2 droplets per frame): a droplet drifting slowly on a periodic axis, a second one
+    that appears and disappears, some frames without droplets"""
+    L = 8.0
+    grid = [[-4.0, 4.0, 8, True]] if rng.random() < 0.7 else None
+    x = 0.0
+    frames = []
+    uid = 0
+    for f in range(nf):
+        fr = []
+        if rng.random() > 0.03:
+            x = -4.0 + (x + 4.0 + rng.choice([0.0, 0.125, 0.25])) % L
+            uid += 1
+            fr.append([x, 0.5 + (uid % 4096) * 2.0 ** -20])
+        if rng.random() < 0.25:
+            uid += 1
+            fr.append([-4.0 + (x + 4.0 + 3.5) % L, 0.25 + (uid % 4096) * 2.0 ** -20])
+        rng.shuffle(fr)
+        frames.append(fr)
+    z = rng.randrange(nf)
+    times = [0.25 * (f - z) for f in range(nf)]
+    h = {"dim": 1, "grid": grid, "times": times, "frames": frames}
+    h["var"] = random_var(rng, 1, times, heavy=False)
+    h["var"]["reuse"] = False
+    return h
+
+
+def foreign_grid_history(rng: random.Random):
+    """3-d / 2-d histories tracked with a cylindrical, spherical or polar grid object as `grid` (any GridBase is
+    accepted; the metric is py-pde's grid.distance).  Judged: everything except the comparison of the metric with the
+    Cartesian Grid model."""
+    kind = rng.choice(["cylinder", "cylinder", "spherical", "polar"])
+    if kind == "cylinder":
+        narrow = rng.random() < 0.5
+        spec = {"kind": "cylinder", "radius": 2.0 if narrow else 8.0, "z": rng.choice([[0.0, 8.0], [-4.0, 4.0], [-12.0, -4.0]]),
+                "shape": [2, 16] if narrow else [8, 2], "periodic_z": rng.random() < 0.6}
+        dim = 3
+    elif kind == "spherical":
+        spec = {"kind": "spherical", "radius": rng.choice([8.0, [1.0, 8.0]]), "shape": rng.choice([1, 2, 8])}
+        dim = 3
+    else:
+        spec = {"kind": "polar", "radius": rng.choice([8.0, [2.0, 8.0]]), "shape": rng.choice([1, 4])}
+        dim = 2
+    h = random_history(rng, 5, 3, plain=True)
+    while h["dim"] != dim:
+        h = random_history(rng, 5, 3, plain=True)
+    h["grid"] = spec
+    if kind == "cylinder":      # move into the z-range of the cylinder
+        z0 = spec["z"][0]
+        h["frames"] = [[d[:2] + [d[2] + z0] + d[3:] for d in fr] for fr in h["frames"]]
+    h["var"] = random_var(rng, dim, h["times"])
+    return h
+
+
+def time_zero_position(times):
+    z = [i for i, t in enumerate(times) if t == 0]
+    if not z:
+        return "none"
+    i, n = z[0], len(times)
+    where = "only" if n == 1 else "first" if i == 0 else "last" if i == n - 1 else "interior"
+    if i > 0:
+        where += ",prev-step=1" if times[i] - times[i - 1] == 1 else ",prev-step!=1"
+    return where
+
+
+def empty_frame_positions(sizes):
+    n = len(sizes)
+    if n == 0 or all(sizes):
+        return ["none"]
+    if not any(sizes):
+        return ["all"]
+    out = set()
+    for i, s in enumerate(sizes):
+        if s == 0:
+            out.add("first" if i == 0 else "last" if i == n - 1 else "interior")
+            if i + 1 < n and sizes[i + 1] == 0:
+                out.add("two-consecutive")
+    return sorted(out)
 
 
 def drift_applicable(hist, config):
@@ -523,15 +1132,22 @@ def drift_applicable(hist, config):
 
 def drift_failures(hist, config, res):
     """under the premise above every track must consist of one physical droplet in all frames"""
-    if res["raised"] or res["tracks"] is None or not drift_applicable(hist, config):
+    cands = ident_candidates(res)
+    if not cands or not is_cart(hist) or not drift_applicable(hist, config):
         return []
-    fails = []
     nf = len(hist["frames"])
-    for tr in res["tracks"]:
-        rs = {hist["frames"][f][j][-1] for (_, f, j) in tr}
-        if len(rs) != 1 or len(tr) != nf:
-            fails.append(f"droplets moving less than their separation lost their identity: track {[(f, j) for (_, f, j) in tr]}")
-    return fails
+    best = None
+    for tracks in cands:
+        fails = []
+        for tr in tracks:
+            rs = {hist["frames"][f][j][-1] for (_, f, j) in tr}
+            if len(rs) != 1 or len(tr) != nf:
+                fails.append(f"droplets moving less than their separation lost their identity: track {[(f, j) for (_, f, j) in tr]}")
+        if not fails:
+            return []
+        if best is None or len(fails) < len(best):
+            best = fails
+    return best
 
 
 # ---------------------------------------------------------------------------------------------
@@ -649,26 +1265,36 @@ Definition gagree (c : gcase) : bool :=
   && agree_with (fun a b => match lookup did did_eqb ot a b with Some true => true | _ => false end)
                 (fun a b => match lookup did did_eqb dt a b with Some q => q | None => 0%Q end) frames o.
 
-(* ---- lattice cases: droplets are kinds, one table per class; times are 0, 1, 2, ... ---- *)
+(* ---- lattice cases: droplets are kinds, one table per class; the time codes are part of the case ---- *)
 Definition ktab := (list (nat * nat * bool) * list (nat * nat * Q))%type.
-Definition lcase := (ktab * list (list nat) * outs)%type.
+Definition lcase := (ktab * list Q * list (list nat) * outs)%type.
 Definition kind_of (kf : list (list nat)) (a : did) : option nat :=
   match nth_error kf (fst a) with Some l => nth_error l (snd a) | None => None end.
-Fixpoint times_from (k : nat) (n : nat) : list Q :=
-  match n with O => [] | S n' => (Z.of_nat k # 1) :: times_from (S k) n' end.
 Definition look {V : Type} (kf : list (list nat)) (tbl : list (nat * nat * V)) (a b : did) : option V :=
   match kind_of kf a, kind_of kf b with
   | Some x, Some y => lookup nat Nat.eqb tbl x y
   | _, _ => None
   end.
 Definition lagree (c : lcase) : bool :=
-  let '((ot, dt), kf, o) := c in
-  let frames := combine (times_from 0 (length kf)) (map (@length nat) kf) in
+  let '((ot, dt), ts, kf, o) := c in
+  let frames := combine ts (map (@length nat) kf) in
+  Nat.eqb (length ts) (length kf) &&
   forallb (fun p => let '(_, a, b) := p in
                     match look kf ot a b, look kf dt a b with Some _, Some _ => true | _, _ => false end)
           (sizes_pairs false (map snd frames) 0 [])
   && agree_with (fun a b => match look kf ot a b with Some true => true | _ => false end)
                 (fun a b => match look kf dt a b with Some q => q | None => 0%Q end) frames o.
+"""
+
+
+HEADER_APPEND = """From Coq Require Import List Bool Arith QArith.
+Import ListNotations.
+From PD Require Import Model.Tracking.
+
+(* (time arguments of a history of DropletTrack.append calls on a fresh track: None = omitted,
+    the time codes the implementation stored) *)
+Definition acase := (list (option Q) * list Q)%type.
+Definition aagree (c : acase) : bool := list_eqb Qeq_bool (appends (fst c)) (snd c).
 """
 
 
@@ -680,8 +1306,8 @@ def gcase_lit(hist, ov, D, outs, full=False):
     return f"({vlib.blit(full)},{fr},{ot},{dt},{outs_lit(outs)})"
 
 
-def lcase_lit(tabname, kind_hist, outs):
-    return f"({tabname},{vlib.listlit(kind_hist, lambda fr: vlib.listlit(fr))},{outs_lit(outs)})"
+def lcase_lit(tabname, times, kind_hist, outs):
+    return f"({tabname},{vlib.listlit(times, vlib.qlit)},{vlib.listlit(kind_hist, lambda fr: vlib.listlit(fr))},{outs_lit(outs)})"
 
 
 def class_tables(cls, with_grid):
@@ -725,6 +1351,8 @@ Definition magree (c : mcase) : bool :=
 
 def metric_case_lits(hist, ov, D, limit=4):
     out = []
+    if not is_cart(hist):
+        return out
     for (a, b) in sorted(D):
         if len(out) >= limit:
             break
@@ -745,10 +1373,12 @@ def metric_case_lits(hist, ov, D, limit=4):
 # ---------------------------------------------------------------------------------------------
 TRUSTED = [
     "Coq 8.16.1 kernel + vm_compute (no native_compute)",
-    "hand-written model coq/Model/Tracking.v of DropletTrackList.from_emulsion_time_course, tied to /repo by the "
-    "correspondence run (model evaluated inside Coq on the implementation's own overlap relation and distance table)",
-    "harness/tracking_common.py: canonicalisation (droplets matched back by time stamp + position + radius), "
-    "float.as_integer_ratio, table extraction by calling SphericalDroplet.overlaps / scipy cdist pairwise",
+    "hand-written model coq/Model/Tracking.v of DropletTrackList.from_emulsion_time_course (and of the time-code rule of "
+    "DropletTrack.append), tied to /repo by the correspondence run (model evaluated inside Coq on the implementation's "
+    "own overlap relation and distance table)",
+    "harness/tracking_common.py: canonicalisation (droplets matched back by time stamp + class + bytes of the data "
+    "record; without the stamp: every identification consistent with the data), float.as_integer_ratio, table "
+    "extraction by calling SphericalDroplet.overlaps / scipy cdist pairwise on freshly constructed droplets",
     "oracles (premises or inputs of the theorems): SphericalDroplet.overlaps(grid=) as relation ov, scipy cdist with "
     "the code's metric as table D (precondition: two non-empty point sets), np.argmin = first minimum in C order",
 ]
@@ -758,13 +1388,16 @@ ASSUME = [
     "cdist computes entry (i, j) from points i and j only, and deterministically (checked implicitly: tables are "
     "extracted pairwise, the implementation computes them matrix-wise)",
     "distances are finite (positions finite, no overflow); non-finite values never enter Q",
+    "time codes are finite real numbers (Python / numpy scalars, 0-d arrays); NaN is not ordered, inf never enters Q",
 ]
 RULE = ("one case = one history x one grid choice, evaluated for the overlap method and the distance method with "
         "three cut-offs; exhaustive lattice classes + seeded random histories (appear/disappear/split/merge/drift/"
-        "empty frames/ties); distinct = distinct (history, grid, config) triples; non-trivial = at least two frames "
-        "of which at least one holds a droplet")
+        "empty frames/ties; origins, axis lengths, cell counts, periodicity masks, scales, droplet classes, provenances, "
+        "numeric types, options: see input_distribution); distinct = distinct (history, grid, config) triples; "
+        "non-trivial = at least two frames of which at least one holds a droplet")
 
 ALL_CONFIGS = lambda cutoffs: [("overlap", None)] + [("distance", c) for c in cutoffs]  # noqa
+CLASS_TABLES = {}      # tabname -> (cls, with_grid, ot, dt); filled by build_items before the workers are forked
 
 
 def _hist_stats(hist, D):
@@ -777,15 +1410,77 @@ def _hist_stats(hist, D):
     return sizes, ties
 
 
+def _geometry_stats(hist):
+    """where the droplets sit relative to the box (Cartesian grids)"""
+    st = {"radius_zero": 0, "on_face": 0, "on_corner": 0, "straddles_periodic_face": 0, "touches_nonperiodic_face": 0,
+          "centre_outside_box": 0, "droplets": 0}
+    g = hist["grid"]
+    for fr in hist["frames"]:
+        for d in fr:
+            st["droplets"] += 1
+            r = d[-1]
+            if r == 0:
+                st["radius_zero"] += 1
+            if not isinstance(g, list):
+                continue
+            faces = [x == a[0] or x == a[1] for x, a in zip(d[:-1], g)]
+            st["on_face"] += any(faces)
+            st["on_corner"] += len(faces) > 1 and all(faces)
+            st["centre_outside_box"] += any(x < a[0] or x > a[1] for x, a in zip(d[:-1], g))
+            st["straddles_periodic_face"] += any(a[3] and (x - r < a[0] < x + r or x - r < a[1] < x + r) for x, a in zip(d[:-1], g))
+            st["touches_nonperiodic_face"] += any((not a[3]) and r > 0 and (x - r == a[0] or x + r == a[1]) for x, a in zip(d[:-1], g))
+    return st
+
+
+def _same_data_in_other_frames(hist):
+    seen = {}
+    for f, fr in enumerate(hist["frames"]):
+        for d in fr:
+            seen.setdefault(tuple(d), set()).add(f)
+    return sum(1 for v in seen.values() if len(v) > 1)
+
+
+def _res_sig(res):
+    return (res["raised"], sorted(map(str, res.get("tracks_partial") or [])), sorted(res["problems"]))
+
+
 def process(item):
-    """item = dict(hist, configs, full, pid, kind, lat).  Runs the implementation and the oracles; returns a plain dict."""
+    """item = dict(hist, configs, full, pid, kind, lat, coq).  Runs the implementation and the oracles; returns a plain dict."""
     hist, configs, full, pid, kind = item["hist"], item["configs"], item["full"], item["pid"], item["kind"]
-    ov, D = impl_tables(hist, full)
+    var = var_of(hist)
+    sizes = [len(fr) for fr in hist["frames"]]
+    try:
+        ov, D = impl_tables(hist, full)
+    except TableError as e:
+        return {"lit": None, "fails": [(configs[0], "metric: " + str(e))], "sizes": sizes, "ties": False, "metric": [],
+                "clean": False, "raised": [], "ntracks": [], "md_kinds": [], "ident": [], "cut_eq": [], "geo": _geometry_stats(hist),
+                "same_data": 0}
     outs, fails = [], []
+    if item.get("lat"):      # the class tables were computed on plain droplets of each kind: must hold for these droplets
+        cls, with_grid, ot, dt = CLASS_TABLES[item["lat"][0]]
+        kh = item["lat"][1]
+        for (a, b) in ov:
+            ka, kb = kh[a[0]][a[1]], kh[b[0]][b[1]]
+            if ov[(a, b)] != ot[(ka, kb)] or D[(a, b)] != dt[(ka, kb)]:
+                fails.append((configs[0], f"metric: overlap / distance of droplets {a}, {b} depends on something other than "
+                                          f"position and radius (class {var['cls']})"))
+                break
+    try:
+        first = build_input(hist)
+    except Exception as e:  # noqa -- copying / pickling / storing the time course failed: not a statement about tracking,
+        # but an input on which the library fails; C06 reports it, both checks go on with freshly built objects
+        if pid == "C06":
+            fails.append((configs[0], f"time course cannot be built with provenance {var['prov']!r}, time codes as "
+                                      f"{var['time_type']!r} ({type(e).__name__}: {str(e)[:150]})"))
+        hist = dict(hist)
+        hist["var"] = dict(var, prov="fresh", time_type="float")
+        var = var_of(hist)
+        first = build_input(hist)
+    prebuilt = first if var["reuse"] else None
     for n, cfg in enumerate(configs):
         # bit-exact snapshot comparison always; the (weaker, allclose-based) == of the library on a deep copy
         # additionally for the first config of every history
-        res = run_impl(hist, cfg, deep=(n == 0))
+        res = run_impl(hist, cfg, deep=(n == 0), prebuilt=prebuilt if prebuilt is not None else first if n == 0 else None)
         outs.append((cfg, res))
         fs = []
         try:
@@ -796,24 +1491,34 @@ def process(item):
                 fs += drift_failures(hist, cfg, res)
         except Exception as e:  # noqa -- a result the oracle cannot even interpret is a failure of the property
             fs = [f"result cannot be judged by the property oracle ({type(e).__name__}: {str(e)[:120]})"]
+        if prebuilt is not None and n == 0:       # repeated operation on the same objects
+            again = run_impl(hist, cfg, deep=False, prebuilt=prebuilt)
+            if _res_sig(again) != _res_sig(res):
+                fs.append("a second call with the same time course and grid objects gives another result")
         for f in fs:
             fails.append((cfg, f))
     if pid == "C07":
         for f in metric_failures(hist, ov, D):
             fails.append((configs[0], "metric: " + f))
-    sizes, ties = _hist_stats(hist, D)
-    if item.get("lat"):
-        lit = lcase_lit(item["lat"][0], item["lat"][1], outs)
-    else:
-        lit = gcase_lit(hist, ov, D, outs, full)
+    _, ties = _hist_stats(hist, D)
+    lit = None
+    if item.get("coq", True):
+        if item.get("lat"):
+            lit = lcase_lit(item["lat"][0], hist["times"], item["lat"][1], outs)
+        else:
+            lit = gcase_lit(hist, ov, D, outs, full)
+    consec = {d for (a, b), d in D.items() if a[0] + 1 == b[0]}
     return {"lit": lit, "fails": fails, "sizes": sizes, "ties": ties,
-            "metric": metric_case_lits(hist, ov, D) if pid == "C07" and not item.get("lat") else [],
+            "metric": metric_case_lits(hist, ov, D) if pid == "C07" and not item.get("lat") and item.get("coq", True) else [],
             "clean": inframe_nonoverlap(hist, ov), "raised": [r["raised"] for _, r in outs if r["raised"]],
-            "ntracks": [len(r["tracks"]) if r["tracks"] is not None else -1 for _, r in outs]}
+            "ntracks": [len(r["tracks"]) if r["tracks"] is not None else -1 for _, r in outs],
+            "md_kinds": [r["md_kind"] for _, r in outs], "ident": [r["ident_note"] for _, r in outs],
+            "cut_eq": [cfg[1] in consec for cfg in configs if cfg[0] == "distance" and cfg[1] is not None],
+            "geo": _geometry_stats(hist), "same_data": _same_data_in_other_frames(hist)}
 
 
-def mkitem(hist, configs, pid, kind, full=False, lat=None):
-    return {"hist": hist, "configs": configs, "full": full, "pid": pid, "kind": kind, "lat": lat}
+def mkitem(hist, configs, pid, kind, full=False, lat=None, coq=True):
+    return {"hist": hist, "configs": configs, "full": full, "pid": pid, "kind": kind, "lat": lat, "coq": coq}
 
 
 def _pool_map(fn, items, chunk=64):
@@ -824,16 +1529,181 @@ def _pool_map(fn, items, chunk=64):
         return pool.map(fn, items, chunksize=chunk)
 
 
+# ---------------------------------------------------------------------------------------------
+# DropletTrack.append (anchor "copy on append"): histories of appends with and without an explicit time code
+# ---------------------------------------------------------------------------------------------
+APPEND_TIME_VALUES = [0.0, 0.0, 0.0, 1.0, -1.0, -1.5, 2.5, 10.0, 0.25]
+
+
+def random_append_case(rng: random.Random):
+    dim = rng.choice([1, 2, 3])
+    n = rng.choice([1, 2, 2, 3, 4, 6])
+    ops = []
+    for i in range(n):
+        how = rng.choice(["omit", "none_kw", "kw", "kw", "kw", "pos"])
+        t = None
+        tt = "n/a"
+        if how in ("kw", "pos"):
+            t = rng.choice(APPEND_TIME_VALUES)
+            tt = rng.choice(["float", "float", "np.float64", "np.float32", "neg_zero"] + (["int", "int", "np.int64"] if _integral(t) else []))
+            if tt == "neg_zero" and t != 0:
+                tt = "float"
+        ops.append({"how": how, "time": t, "time_type": tt,
+                    "cls": rng.choice(["spherical", "diffuse", "perturbed"]),
+                    "prov": rng.choice(["fresh", "copy", "deepcopy", "pickle", "same_object_as_previous", "member_of_emulsion"])})
+    return {"dim": dim, "ops": ops}
+
+
+def _append_time_obj(t, tt):
+    if tt == "neg_zero":
+        return -0.0
+    return {"float": float, "int": int, "np.float64": np.float64, "np.int64": np.int64, "np.float32": np.float32,
+            "0d": lambda x: np.array(float(x))}[tt](t)
+
+
+def process_append(case):
+    """-> dict(lit, fails, stats); the property statement judged: the droplet is stored as an unchanged copy, stamped with
+    the time code that was given (0 included); the default time code is compared with the model inside Coq"""
+    from droplets import DropletTrack, Emulsion
+    fails = []
+    lit = None
+    try:
+        track = DropletTrack()
+        prev = None
+        given = []
+        for i, op in enumerate(case["ops"]):
+            d = make_droplet([float(i + ax) for ax in range(case["dim"])] + [0.5 + i * 0.125], 
+                             droplet_class({"cls": op["cls"]}, case["dim"], 0, 0), (i + 1) * 2.0 ** -12)
+            if op["prov"] == "copy":
+                d = d.copy()
+            elif op["prov"] == "deepcopy":
+                d = copy.deepcopy(d)
+            elif op["prov"] == "pickle":
+                d = pickle.loads(pickle.dumps(d))
+            elif op["prov"] == "member_of_emulsion":
+                d = Emulsion([d])[0]
+            elif op["prov"] == "same_object_as_previous" and prev is not None:
+                d = prev
+            before = _dkey(d)
+            held = list(track.droplets)
+            stamps = [float(t) for t in track.times]
+            if op["how"] == "omit":
+                track.append(d)
+            elif op["how"] == "none_kw":
+                track.append(d, time=None)
+            else:
+                tobj = _append_time_obj(op["time"], op["time_type"])
+                if op["how"] == "kw":
+                    track.append(d, time=tobj)
+                else:
+                    track.append(d, tobj)
+            given.append(op["time"] if op["how"] in ("kw", "pos") else None)
+            where = f"append #{i} ({op['how']}, time={op['time']!r} as {op['time_type']})"
+            if len(track.times) != i + 1 or len(track.droplets) != i + 1:
+                fails.append(f"{where}: track holds {len(track.droplets)} droplets and {len(track.times)} times")
+                break
+            if not all(_real_time(t) for t in track.times):
+                fails.append(f"{where}: stored time codes {track.times!r} are not all real numbers")
+                break
+            if track.droplets[-1] is d or any(track.droplets[-1] is o for o in held):
+                fails.append(f"{where}: the droplet was stored without a copy")
+            if _dkey(track.droplets[-1]) != before or _dkey(d) != before:
+                fails.append(f"{where}: droplet altered")
+            if any(a is not b for a, b in zip(track.droplets, held)) or [float(t) for t in track.times[:-1]] != stamps:
+                fails.append(f"{where}: earlier entries of the track changed")
+            if given[-1] is not None and float(track.times[-1]) != float(op["time"]):
+                fails.append(f"{where}: droplet stamped with {track.times[-1]!r}, the time code given is {op['time']!r}")
+            prev = d
+        if not fails or all(_real_time(t) for t in track.times):
+            if len(track.times) == len(given):
+                lit = (f"({vlib.listlit(given, lambda t: 'None' if t is None else '(Some ' + vlib.qlit(t) + ')')},"
+                       f"{vlib.listlit([float(t) for t in track.times], vlib.qlit)})")
+    except Exception as e:  # noqa
+        fails.append(f"append raised {type(e).__name__}: {str(e)[:150]}")
+    return {"lit": lit, "fails": fails}
+
+
+def shrink_append(case):
+    cur = copy.deepcopy(case)
+    changed = True
+    while changed:
+        changed = False
+        for i in range(len(cur["ops"]) - 1, -1, -1):
+            c = copy.deepcopy(cur)
+            del c["ops"][i]
+            if c["ops"] and process_append(c)["fails"]:
+                cur, changed = c, True
+    for op in cur["ops"]:
+        for key, val in (("prov", "fresh"), ("cls", "spherical"), ("how", "kw" if op["how"] == "pos" else op["how"])):
+            c = copy.deepcopy(cur)
+            c["ops"][cur["ops"].index(op)][key] = val
+            if process_append(c)["fails"]:
+                op[key] = val
+    return cur
+
+
+def run_append_stream(ctx, rng, pid):
+    cases = [random_append_case(rng) for _ in range(ctx.scale(300, 3000))]
+    results = [process_append(c) for c in cases]
+    for c, r in zip(cases, results):
+        ctx.case(["append", c], nontrivial=len(c["ops"]) >= 2)
+        ctx.count("append:ops_per_history", len(c["ops"]))
+        for i, op in enumerate(c["ops"]):
+            arg = {"omit": "omitted", "none_kw": "None"}.get(op["how"])
+            if arg is None:
+                arg = ("0" if op["time"] == 0 else "nonzero") + (",first" if i == 0 else ",later") + ("" if op["how"] == "kw" else ",positional")
+            ctx.count("append:time_argument", arg)
+            ctx.count("append:time_type", op["time_type"])
+            ctx.count("append:droplet_provenance", op["prov"])
+            ctx.count("append:droplet_class", op["cls"])
+    lits = [(i, r["lit"]) for i, r in enumerate(results) if r["lit"] is not None]
+    bad = _run_cases(ctx, "append", HEADER_APPEND, [l for _, l in lits], "aagree", 400)
+    if bad:
+        first = cases[lits[bad[0]][0]]
+        ctx.broken.append(f"correspondence DropletTrack.append: time codes stored by the implementation differ from the model "
+                          f"(append_times) on {len(bad)} append histories, first: {first}")
+    reported = 0
+    for c, r in zip(cases, results):
+        if r["fails"] and reported < 2:
+            small = shrink_append(c)
+            rr = process_append(small)
+            ctx.violations.append({"what": (rr["fails"] or r["fails"])[0], "input": {"append_case": small, "kind": "append"},
+                                   "found": True, "broken": ctx.broken[:3]})
+            reported += 1
+    if bad and not reported:
+        # the default time code (not part of the property text) differs from the model: no statement fails
+        ctx.extra["append_disagreeing"] = [cases[lits[b][0]] for b in bad[:3]]
+    ctx.tie.append("correspondence: time codes of histories of DropletTrack.append calls (explicit incl. 0 / omitted / None; "
+                   "keyword and positional) compared with Model/Tracking.v `appends` inside Coq")
+
+
+VAR_SIMPLE = {"cls": "spherical", "tag": False, "prov": "fresh", "time_type": "float", "neg_zero": False, "md_type": "float",
+              "md_inf": "omit", "progress": None, "method_default": False, "reuse": False, "overlap_max_dist": False}
+
+
 def shrink(hist, cfg, pid, kind):
-    """greedy delta debugging on frames and droplets; keeps a failing history failing"""
+    """greedy delta debugging on frames and droplets, then on the way the call is assembled; keeps a failing history failing"""
     def failing(h):
         try:
-            r = process(mkitem(h, [cfg], pid, kind, full=not strictly_increasing(h["times"])))
+            r = process(mkitem(h, [cfg], pid, kind, full=not strictly_increasing(h["times"]), coq=False))
         except Exception:  # noqa
             return False
         return bool(r["fails"])
     cur = copy.deepcopy(hist)
-    changed = True
+    if len(cur["frames"]) > 40:       # long histories: first try prefixes / suffixes (binary), then the fine pass
+        for _ in range(12):
+            n = len(cur["frames"])
+            if n <= 8:
+                break
+            for lo, hi in ((0, n // 2), (n // 2, n), (0, 3 * n // 4), (n // 4, n)):
+                h = copy.deepcopy(cur)
+                h["frames"], h["times"] = h["frames"][lo:hi], h["times"][lo:hi]
+                if failing(h):
+                    cur = h
+                    break
+            else:
+                break
+    changed = len(cur["frames"]) <= 40
     while changed:
         changed = False
         for f in range(len(cur["frames"]) - 1, -1, -1):
@@ -848,36 +1718,88 @@ def shrink(hist, cfg, pid, kind):
                 del h["frames"][f][j]
                 if failing(h):
                     cur, changed = h, True
+    if cur.get("var"):
+        for key, val in VAR_SIMPLE.items():
+            if cur["var"].get(key, val) != val:
+                h = copy.deepcopy(cur)
+                h["var"][key] = val
+                if failing(h):
+                    cur = h
     return cur
+
+
+def _scaled_cutoffs(cut, k):
+    return [c if c is None else _scaled(c, k) for c in cut]
+
+
+def _distance_cutoff(rng, h):
+    """a cut-off that EQUALS the distance of some pair of consecutive frames (boundary of `dists > max_dist`)"""
+    pairs = [((f, i), (f + 1, j)) for f in range(len(h["frames"]) - 1)
+             for i in range(len(h["frames"][f])) for j in range(len(h["frames"][f + 1]))]
+    if not pairs or not is_cart(h):
+        return None
+    a, b = rng.choice(pairs)
+    return math.sqrt(float(exact_dist2(h, a, b)))
 
 
 def build_items(ctx, rng, pid):
     """-> (lattice items, general items, Coq text defining the lattice tables)"""
     lat, gen, tabtext = [], [], ""
     if ctx.quick:
-        plan = [("1d-2x2", 3, 2), ("1d-3x2", 2, 2), ("2d-2x2", 2, 2)]
+        plan = [("1d-2x2", 3, 2), ("1d-3x2", 2, 2), ("2d-2x2", 2, 2), ("2d-2x2T", 2, 2), ("3d-mid", 2, 2)]
     else:
-        plan = [("1d-2x2", 3, 2), ("1d-3x2", 3, 2), ("1d-4x2", 2, 2), ("2d-2x2", 3, 2), ("2d-2x2x2", 2, 2)]
+        plan = [("1d-2x2", 3, 2), ("1d-3x2", 3, 2), ("1d-4x2", 2, 2), ("2d-2x2", 3, 2), ("2d-2x2T", 2, 2), ("3d-mid", 2, 2),
+                ("2d-2x2x2", 2, 2)]
+    patterns = sorted(TIME_PATTERNS)
     for name, maxframes, maxdrop in plan:
         cls = lattice_class(name)
         n = 0
         for with_grid in (False, True):
             tabname = "tab_" + name.replace("-", "_") + ("_grid" if with_grid else "_nogrid")
-            tabtext += class_tables_lit(tabname, *class_tables(cls, with_grid))
+            ot, dt = class_tables(cls, with_grid)
+            CLASS_TABLES[tabname] = (cls, with_grid, ot, dt)
+            tabtext += class_tables_lit(tabname, ot, dt)
             for kh in lattice_histories(len(cls["kinds"]), maxframes, maxdrop):
-                lat.append(mkitem(lattice_history(cls, kh, with_grid), ALL_CONFIGS(cls["cutoffs"]), pid,
+                # the first build round's form (times 0, 1, 2, ...; fresh plain droplets) for half of the histories,
+                # the other half with other time codes / classes / provenances / types / options
+                if rng.random() < 0.5:
+                    times, var = None, None
+                else:
+                    times = TIME_PATTERNS[rng.choice(patterns)](len(kh))
+                    var = random_var(rng, cls["dim"], times, heavy=False)
+                lat.append(mkitem(lattice_history(cls, kh, with_grid, times, var), ALL_CONFIGS(cls["cutoffs"]), pid,
                                   "lattice:" + name, lat=(tabname, [list(fr) for fr in kh])))
                 n += 1
         ctx.count("exhaustive_class", f"{name}: all histories of <= {maxframes} frames x <= {maxdrop} droplets, with and without grid", n)
     for i in range(ctx.scale(700, 6000)):
-        h = random_history(rng, 8, 5)
+        plain = i % 4 == 0
+        h = random_history(rng, 8, 5, plain=plain)
+        k = var_of(h).get("scale_pow2", 0)
         cut = [None, rng.choice([0.5, 1.0, 1.5, 2.0]), rng.choice([0.25, 0.75, 3.0])]
+        if not plain:
+            u = rng.random()
+            if u < 0.15:
+                cut[2] = 0.0                      # boundary value: only coinciding centres are linked
+            elif u < 0.2:
+                cut[2] = -1.0                     # below every distance: nothing is linked
+            cut = _scaled_cutoffs(cut, k)
+            if rng.random() < 0.3:
+                c = _distance_cutoff(rng, h)
+                if c is not None:
+                    cut[1] = c
         gen.append(mkitem(h, ALL_CONFIGS(cut), pid, "random"))
     for i in range(ctx.scale(60, 400)):   # time VALUES that repeat / decrease: correspondence only
-        h = random_history(rng, 5, 3, allow_nonmonotone=True)
+        h = random_history(rng, 5, 3, allow_nonmonotone=True, plain=True)
         gen.append(mkitem(h, ALL_CONFIGS([None, 1.0, 0.5]), pid, "random-nonmonotone-times", full=True))
-    for i in range(ctx.scale(60, 400)):
-        gen.append(mkitem(drift_history(rng), ALL_CONFIGS([None, 1.0, 3.0]), pid, "drift"))
+    for i in range(ctx.scale(90, 500)):
+        gen.append(mkitem(drift_history(rng, plain=(i % 3 == 0)), ALL_CONFIGS([None, 1.0, 3.0]), pid, "drift"))
+    for i in range(ctx.scale(40, 300)):
+        gen.append(mkitem(foreign_grid_history(rng), ALL_CONFIGS([None, 1.0, rng.choice([0.0, 2.0])]), pid, "foreign-grid"))
+    for i in range(ctx.scale(4, 20)):     # long histories inside Coq (crossing 10 and 100 frames)
+        gen.append(mkitem(long_history(rng, rng.choice([30, 101, 150])), ALL_CONFIGS([None, 0.25, 0.125]), pid, "long"))
+    for i in range(ctx.scale(1, 4)):      # > 1000 frames: property oracle only (the literal of such a case costs minutes)
+        gen.append(mkitem(long_history(rng, 1100 + 7 * i), [("overlap", None), ("distance", 0.25)], pid,
+                          "long-oracle-only", coq=False))
     return lat, gen, tabtext
 
 
@@ -890,13 +1812,105 @@ def record_violations(ctx, pid, items, results, limit=4):
                 continue
             seen.add(sig)
             small = shrink(item["hist"], cfg, pid, item["kind"])
-            rr = process(mkitem(small, [cfg], pid, item["kind"], full=not strictly_increasing(small["times"])))
+            rr = process(mkitem(small, [cfg], pid, item["kind"], full=not strictly_increasing(small["times"]), coq=False))
             what = rr["fails"][0][1] if rr["fails"] else f
-            if any(v["what"] == what and v["input"]["history"] == small and v["input"]["config"] == list(cfg)
+            if any(v["what"] == what and v["input"].get("history") == small and v["input"].get("config") == list(cfg)
                    for v in ctx.violations):
                 continue
             ctx.violations.append({"what": what, "input": {"history": small, "config": list(cfg), "kind": item["kind"]},
                                    "found": True, "broken": ctx.broken[:3]})
+
+
+def _count_item(ctx, item, r):
+    hist, configs, kind = item["hist"], item["configs"], item["kind"]
+    var = var_of(hist)
+    nontrivial = len(r["sizes"]) >= 2 and any(r["sizes"])
+    for cfg in configs:
+        ctx.case([hist, list(cfg)], nontrivial=nontrivial)
+        ctx.count("method", cfg[0])
+        ctx.count("cutoff", "n/a" if cfg[0] == "overlap" else ("inf" if cfg[1] is None else
+                                                              cfg[1] if cfg[1] in (0.0, -1.0, 0.25, 0.5, 0.75, 1.0, 1.25, 1.5, 2.0, 3.0)
+                                                              else "other (scaled / equal to a distance)"))
+    ctx.count("kind", kind.split(":")[0])
+    nf = len(r["sizes"])
+    ctx.count("frames", nf if nf <= 8 else "9..99" if nf < 100 else "100..999" if nf < 1000 else ">=1000")
+    for n in r["sizes"]:
+        ctx.count("droplets_per_frame", n)
+    ctx.count("empty_frames_in_history", sum(1 for n in r["sizes"] if n == 0))
+    for w in empty_frame_positions(r["sizes"]):
+        ctx.count("empty_frame_position", w)
+    ctx.count("distance_ties_between_consecutive_frames", r["ties"])
+    ctx.count("in_frame_non_overlap", r["clean"])
+    g = hist["grid"]
+    if g is None:
+        ctx.count("grid", "none")
+    elif isinstance(g, dict):
+        ctx.count("grid", g["kind"] + (":periodic_z=%s" % g["periodic_z"] if g["kind"] == "cylinder" else
+                                        ":inner-radius>0" if isinstance(g["radius"], list) else ""))
+    else:
+        ctx.count("grid", "periodic:" + "".join("1" if a[3] else "0" for a in g))
+        for a in g:
+            lo, hi = a[0], a[1]
+            ctx.count("grid_axis_origin", "0" if lo == 0 else "centred" if lo == -hi else "negative" if hi <= 0 else
+                      "positive" if lo > 0 else "mixed")
+            ctx.count("grid_axis_cells", a[2] if a[2] <= 2 else ">2")
+        if len(g) > 1:
+            Ls = [a[1] - a[0] for a in g]
+            ctx.count("grid_axis_lengths", "equal" if len(set(Ls)) == 1 else "larger-first" if Ls[0] == max(Ls) and Ls[-1] != max(Ls)
+                      else "larger-last" if Ls[-1] == max(Ls) and Ls[0] != max(Ls) else "other-unequal")
+            per = [i for i, a in enumerate(g) if a[3]]
+            if len(per) == 1:
+                ctx.count("single_periodic_axis", "first" if per[0] == 0 else "last" if per[0] == len(g) - 1 else "middle")
+    ctx.count("dim", hist["dim"])
+    for e in r["raised"]:
+        ctx.count("raised", e)
+    # audit dimensions (notes/input_dimensions.md)
+    ctx.count("time_zero", time_zero_position(hist["times"]))
+    ts = hist["times"]
+    if len(ts) >= 2:
+        steps = {b - a for a, b in zip(ts, ts[1:])}
+        ctx.count("time_steps", "not increasing" if min(steps) <= 0 else
+                  "contains a one-ulp step" if any(b == math.nextafter(a, INF) for a, b in zip(ts, ts[1:])) else
+                  "all 1" if steps == {1.0} else ">= 2^30" if max(steps) >= 2.0 ** 30 else "mixed (multiples of 1/4)")
+    ctx.count("time_type", var["time_type"])
+    if any(t == 0 for t in ts):
+        ctx.count("time_zero_written_as", "-0.0" if var["neg_zero"] and var["time_type"] in ("float", "np.float64", "np.float32", "0d", "mixed") else "0")
+    ctx.count("droplet_class", var["cls"] + ("+unique-tag" if var["tag"] else ""))
+    ctx.count("provenance", var["prov"])
+    ctx.count("progress", var["progress"])
+    ctx.count("method_keyword", "default (omitted) for overlap" if var["method_default"] else "explicit")
+    ctx.count("same_objects_reused_for_all_calls", var["reuse"])
+    ctx.count("overlap_method_called_with_unused_max_dist", var["overlap_max_dist"])
+    ctx.count("scale_pow2", var.get("scale_pow2", 0))
+    for k in r["md_kinds"]:
+        if k != "n/a":
+            ctx.count("max_dist_passed_as", k)
+    for k in r["ident"]:
+        ctx.count("identification_without_time_stamps", k)
+    for k in r["cut_eq"]:
+        ctx.count("cutoff_equals_a_distance_of_the_history", k)
+    ctx.count("histories_with_same_droplet_data_in_several_frames", r["same_data"] > 0)
+    for k, v in r["geo"].items():
+        if v:
+            ctx.count("droplet_geometry", k, v)
+    ctx.count("in_coq", bool(r["lit"]))
+
+
+def _run_cases(ctx, name, header, lits, fn, shard):
+    """vlib.run_cases; a shard whose coqc process died without any output (killed by the kernel under memory pressure,
+    seen with ~150 runnable processes on the build host) says nothing about /repo: such a run is repeated once.  A shard
+    that fails twice, or fails with a message from Coq, stays in ctx.broken."""
+    n0, c0 = len(ctx.broken), len(ctx.checker_cmds)
+    bad = vlib.run_cases(ctx, name, header, lits, fn, shard=shard)
+    died = [b for b in ctx.broken[n0:] if "failed to evaluate: " in b and b.split("failed to evaluate: ", 1)[1].strip() in ("", "TIMEOUT")]
+    if died and len(died) == len(ctx.broken) - n0:
+        import time
+        del ctx.broken[n0:]
+        del ctx.checker_cmds[c0:]
+        ctx.notes.append(f"{len(died)} shard(s) of `{name}` ended without output from coqc (process killed); evaluated a second time")
+        time.sleep(10)
+        bad = vlib.run_cases(ctx, name, header, lits, fn, shard=shard)
+    return bad
 
 
 def run_check(ctx, pid, deps):
@@ -908,37 +1922,29 @@ def run_check(ctx, pid, deps):
     items = lat + gen
     results = _pool_map(process, items)
     for item, r in zip(items, results):
-        hist, configs, kind = item["hist"], item["configs"], item["kind"]
-        nontrivial = len(r["sizes"]) >= 2 and any(r["sizes"])
-        for cfg in configs:
-            ctx.case([hist, list(cfg)], nontrivial=nontrivial)
-            ctx.count("method", cfg[0])
-            ctx.count("cutoff", "n/a" if cfg[0] == "overlap" else ("inf" if cfg[1] is None else cfg[1]))
-        ctx.count("kind", kind.split(":")[0])
-        ctx.count("frames", len(r["sizes"]))
-        for n in r["sizes"]:
-            ctx.count("droplets_per_frame", n)
-        ctx.count("empty_frames_in_history", sum(1 for n in r["sizes"] if n == 0))
-        ctx.count("distance_ties_between_consecutive_frames", r["ties"])
-        ctx.count("in_frame_non_overlap", r["clean"])
-        ctx.count("grid", "none" if hist["grid"] is None else "periodic:" + "".join("1" if a[3] else "0" for a in hist["grid"]))
-        ctx.count("dim", hist["dim"])
-        for e in r["raised"]:
-            ctx.count("raised", e)
+        _count_item(ctx, item, r)
     for idx in (len(lat) // 3, len(lat) + len(gen) // 2):
         if idx < len(items):
             ctx.sample({"history": items[idx]["hist"], "configs": [list(c) for c in items[idx]["configs"]],
-                        "tracks_per_config": results[idx]["ntracks"], "coq_case": results[idx]["lit"][:600]})
-    bad_l = vlib.run_cases(ctx, "lat", HEADER + tabtext, [r["lit"] for r in results[:len(lat)]], "lagree", shard=300)
-    bad_g = vlib.run_cases(ctx, "gen", HEADER, [r["lit"] for r in results[len(lat):]], "gagree", shard=100)
-    bad = list(bad_l) + [len(lat) + b for b in bad_g]
+                        "tracks_per_config": results[idx]["ntracks"], "coq_case": (results[idx]["lit"] or "")[:600]})
+    bad_l = _run_cases(ctx, "lat", HEADER + tabtext, [r["lit"] for r in results[:len(lat)]], "lagree", 300)
+    gidx = [i for i in range(len(lat), len(items)) if results[i]["lit"] is not None]
+    bad_g = _run_cases(ctx, "gen", HEADER, [results[i]["lit"] for i in gidx], "gagree", 100)
+    bad = list(bad_l) + [gidx[b] for b in bad_g]
     if pid == "C07":
         mlits = [m for r in results for m in r["metric"]][:ctx.scale(1500, 12000)]
-        bad_m = vlib.run_cases(ctx, "metric", HEADER_METRIC, mlits, "magree", shard=150)
+        bad_m = _run_cases(ctx, "metric", HEADER_METRIC, mlits, "magree", 150)
         ctx.count("metric_cases(distance/overlap table vs Model/Grid.v)", "pairs", len(mlits))
         if bad_m:
             ctx.broken.append(f"metric: distance / overlap computed by the implementation differ from the Grid model "
                               f"on {len(bad_m)} pair(s), first: {mlits[bad_m[0]][:300]}")
+    if pid == "C06":
+        run_append_stream(ctx, rng, pid)
+    ctx.notes.append("oracle only (not inside Coq): histories of >= 1100 frames (kind long-oracle-only); the metric comparison "
+                     "with Model/Grid.v is restricted to Cartesian grids (cylindrical / spherical / polar grid objects enter "
+                     "the correspondence and the other statements through the implementation's own tables)")
+    for name, what, why in SUSPECTED:
+        ctx.notes.append(f"SUSPECTED (reported, not judged): {name}: {what} -- {why}")
     if bad:
         ctx.broken.append(f"correspondence from_emulsion_time_course: model and implementation differ on {len(bad)} "
                           f"case(s), first: {items[bad[0]]['hist']} kind={items[bad[0]]['kind']}")
@@ -949,10 +1955,12 @@ def run_check(ctx, pid, deps):
         extra = []
         r2 = random.Random(ctx.seed + 1)
         for i in range(ctx.scale(4000, 20000)):
-            h = random_history(r2, 8, 5)
-            extra.append(mkitem(h, ALL_CONFIGS([None, r2.choice([0.5, 1.0, 1.5, 2.0]), r2.choice([0.25, 0.75, 3.0])]), pid, "random"))
+            h = random_history(r2, 8, 5, plain=(i % 4 == 0))
+            k = var_of(h).get("scale_pow2", 0)
+            extra.append(mkitem(h, ALL_CONFIGS(_scaled_cutoffs([None, r2.choice([0.5, 1.0, 1.5, 2.0]), r2.choice([0.25, 0.75, 3.0])], k)),
+                                pid, "random", coq=False))
         for i in range(ctx.scale(300, 1000)):
-            extra.append(mkitem(drift_history(r2), ALL_CONFIGS([None, 1.0, 3.0]), pid, "drift"))
+            extra.append(mkitem(drift_history(r2, plain=(i % 3 == 0)), ALL_CONFIGS([None, 1.0, 3.0]), pid, "drift", coq=False))
         res2 = _pool_map(process, extra)
         ctx.notes.append(f"search: oracle over {len(extra)} further histories")
         record_violations(ctx, pid, extra, res2)
@@ -963,7 +1971,7 @@ def run_check(ctx, pid, deps):
         it = items[b]
         full = not strictly_increasing(it["hist"]["times"])
         singles = [process(mkitem(it["hist"], [cfg], pid, it["kind"], full=full)) for cfg in it["configs"]]
-        bad_c = vlib.run_cases(ctx, "diag", HEADER, [s["lit"] for s in singles], "gagree", shard=10)
+        bad_c = vlib.run_cases(ctx, "diag", HEADER, ["(" + s["lit"] + " : gcase)" for s in singles], "gagree", shard=10)
         for ci in (bad_c or [0])[:2]:
             cfg = it["configs"][ci]
             ctx.violations.append({"what": "implementation differs from the verified model on this input (no statement of the "
@@ -981,12 +1989,17 @@ def replay(path, pid):
     if not inp:
         print("no concrete input stored (no-failing-input-found replay)")
         return 1
+    if "append_case" in inp:
+        r = process_append(inp["append_case"])
+        print("oracle failures on current tree:", r["fails"])
+        print("time arguments / stored time codes:", r["lit"])
+        return 1 if r["fails"] else 0
     hist, cfg, kind = inp["history"], tuple(inp["config"]), inp.get("kind", "random")
     full = not strictly_increasing(hist["times"])
     r = process(mkitem(hist, [cfg], pid, kind, full=full))
     ov, D = impl_tables(hist, full)
     res = run_impl(hist, cfg)
-    print("implementation:", "raised " + res["raised"] if res["raised"] else res["tracks"])
+    print("implementation:", "raised " + res["raised"] if res["raised"] else (res["tracks"] or res["tracks_partial"]), res["problems"][:3])
     ctx = vlib.Ctx(pid, "quick", 0)
     d = ctx.casedir
     d.mkdir(parents=True, exist_ok=True)
